@@ -27,10 +27,11 @@ VERIF = build.VERIF
 EVID = Path(os.environ.get('VERIF_EVIDENCE_DIR', str(VERIF / 'evidence')))
 WITNESS = EVID / 'witness'
 
+VERIF_SUPP = build.VERIF / 'cfg' / 'tsan.supp'
 SAN_ENV = {
     'ASAN_OPTIONS': 'halt_on_error=1:abort_on_error=0:detect_leaks=0:exitcode=67:allocator_may_return_null=1:detect_stack_use_after_return=1',
     'UBSAN_OPTIONS': 'print_stacktrace=1:halt_on_error=1:exitcode=67',
-    'TSAN_OPTIONS': 'halt_on_error=1:second_deadlock_stack=1:die_after_fork=0:exitcode=66:report_signal_unsafe=0',
+    'TSAN_OPTIONS': 'halt_on_error=1:second_deadlock_stack=1:die_after_fork=0:exitcode=66:report_signal_unsafe=0:suppressions=' + str(VERIF_SUPP),
 }
 
 
@@ -197,6 +198,9 @@ def main():
     WITNESS.mkdir(exist_ok=True)
     outdir = build.BUILD_ROOT / 'run' / ('%s-%s-%d-%d' % (pid, tier, seed, os.getpid()))
     outdir.mkdir(parents=True, exist_ok=True)
+    if not replay:
+        for old in WITNESS.glob('%s-%s-seed%d-*.json' % (pid, tier, seed)):
+            old.unlink()
 
     if replay:
         w = json.loads(Path(replay).read_text())
